@@ -16,7 +16,10 @@ Stop(v) == verdict' = v /\ UNCHANGED <<tid, k, dest, failed>>
 Step ==
   /\ verdict = "run"
   /\ IF k > Len(T.events) THEN
-        (IF failed \/ T.raised THEN
+        \* (mustFail: the Lua writer was made to emit code that does not parse - "the transformed code does not re-parse" -
+        \*  so producing the cart has to fail)
+        (IF "mustFail" \in DOMAIN T /\ T.mustFail /\ ~(failed \/ T.raised) THEN Stop("unparsable-code-written")
+         ELSE IF failed \/ T.raised THEN
              (IF T.destAfter # T.dest0 THEN Stop("destination-damaged")
               ELSE IF dest # T.dest0 THEN Stop("destination-opened-before-success")
               ELSE Stop("ok"))
